@@ -608,7 +608,7 @@ func report(eng *Engine, prop, tier string, seed int, decls []*HarnessDecl, runs
 		},
 	}
 	b, _ := json.MarshalIndent(ev, "", " ")
-	if !filtered {
+	if !filtered && os.Getenv("VCHECK_REPO") == "" {
 		os.MkdirAll(filepath.Join(verifDir, "evidence"), 0o755)
 		if err := os.WriteFile(filepath.Join(verifDir, "evidence", prop+".json"), b, 0o644); err != nil {
 			fmt.Fprintln(os.Stderr, "cannot write evidence:", err)
